@@ -760,10 +760,14 @@ class Variant(productmd.composeinfo.VariantBase):
                 self.add(variant)
 
     def deserialize_1_0(self, parser, uid, addon=False):
-        self.id = parser.get(self._section, "id")
-        self.uid = parser.get(self._section, "uid")
-        self.name = parser.get(self._section, "name")
-        self.type = parser.get(self._section, "type")
+        section = self._section
+        if addon and not parser.has_section(section):
+            # child variants of other types than addon are written to variant-* sections
+            section = "variant-%s" % uid
+        self.id = parser.get(section, "id")
+        self.uid = parser.get(section, "uid")
+        self.name = parser.get(section, "name")
+        self.type = parser.get(section, "type")
 
         # child addons
         if parser.has_option(self._section, "addons"):
